@@ -196,6 +196,15 @@ def cases(c):
         syms = SIDES if not cplx else SIDES[1:]
         ps = [[gen.pick(rng, syms) for _ in range(int(rng.integers(1, 5)))] for _ in range(12)]
         out.append({'form': 'paths', 'cplx': cplx, 'NFFT': NFFT, 'vec': 'rand', 'paths': ps, 'i': i})
+    # the frequency axes alone (no PSD needed): every NFFT up to 400 (2048 sampled in the thorough tier) x sampling
+    # rates whose quotient sampling/NFFT is not exactly representable, before and after a sampling re-assignment
+    fss = [1.0, 2.0, 1024.0, 44100.0, 0.05, 1000.0, 3.0]
+    for NFFT in range(2, 401 if quick else 1025):
+        out.append({'form': 'axis', 'NFFT': NFFT, 'cplx': NFFT % 2, 'fs': fss[NFFT % len(fss)], 'fs2': fss[(NFFT // 7 + 1 + NFFT) % len(fss)]})
+        out.append({'form': 'axis', 'NFFT': NFFT, 'cplx': 1 - NFFT % 2, 'fs': fss[(NFFT + 3) % len(fss)], 'fs2': fss[(NFFT + 5) % len(fss)]})
+    for i in range(0 if quick else 3000):
+        out.append({'form': 'axis', 'NFFT': int(rng.integers(1025, 4097)), 'cplx': int(rng.integers(0, 2)),
+                    'fs': float(gen.pick(rng, fss)), 'fs2': float(gen.pick(rng, fss)), 'i': i})
     for n in ([2, 3, 4, 5, 8, 9, 16, 17] + ([] if quick else [33, 64, 101])):
         out.append({'form': 'helpers', 'n': n, 'directed': True})
     for i in range(10 if quick else 4800):
@@ -222,12 +231,46 @@ def note_state(c, cplx, NFFT, sides, op=None, nxt=None):
             c.extra['transitions_seen'].append(tr)
 
 
+def axis_of(sides, NFFT, fs):
+    if sides == 'centerdc':
+        return (np.arange(NFFT) - NFFT // 2) * fs / float(NFFT)
+    if sides == 'twosided':
+        return np.arange(NFFT) * fs / float(NFFT)
+    return np.arange(refs.onesided_len(NFFT)) * fs / float(NFFT)
+
+
+def axis_case(c, d):
+    """frequencies(sides) of one object: on the grid k*sampling/NFFT with one entry per value of that layout, when
+    first asked, after the sampling rate of the same object is re-assigned, and after it is assigned back."""
+    import spectrum
+    NFFT, cplx = d['NFFT'], bool(d['cplx'])
+    c.set_nontrivial(True)
+    feats = {'datatype': 'complex' if cplx else 'real', 'nfft_odd': bool(NFFT % 2), 'form': 'axis'}
+    data = (np.ones(2) * (1 + 1j)) if cplx else np.ones(2)
+    try:
+        s = spectrum.Spectrum(data, NFFT=NFFT, sampling=d['fs'])
+        for stage, fs in (('constructed', d['fs']), ('sampling-reassigned', d['fs2']), ('sampling-assigned-back', d['fs'])):
+            if stage != 'constructed':
+                s.sampling = fs
+            for sides in SIDES:
+                fr = np.asarray(s.frequencies(sides), dtype=float)
+                ref = axis_of(sides, NFFT, fs)
+                c.compare('axis:frequencies(sides)-on-the-DFT-grid', fr, ref, 1e-12, dict(feats, dst=sides, stage=stage),
+                          scale=fs, detail={'NFFT': NFFT, 'fs': fs, 'stage': stage, 'sides': sides})
+            c.compare('axis:df-is-sampling/NFFT', float(s.df), fs / float(NFFT), 1e-15, dict(feats, stage=stage),
+                      scale=fs / float(NFFT))
+    except Exception as exc:
+        c.exception('axis', exc, feats)
+
+
 def run_case(c, d):
     import spectrum
     if d['form'] == 'helpers':
         return helpers_case(c, d)
     if d['form'] == 'arma2psd':
         return arma2psd_case(c, d)
+    if d['form'] == 'axis':
+        return axis_case(c, d)
     cplx, NFFT = bool(d['cplx']), d['NFFT']
     L = NFFT if cplx else refs.onesided_len(NFFT)
     v0 = make_vec(c, d, L)
